@@ -1224,3 +1224,183 @@ Theorem C16_bash_generate_table_plain_nonvacuous :
     reach b [[104; 101; 108; 112]; [97; 100; 100]; [120]] [[104; 101; 108; 112]; [97; 100; 100]; [120]] n.
 Proof. exact BashUser.bash_generate_table_plain_hyps. Qed.
 Print Assumptions C16_bash_generate_table_plain_nonvacuous.
+
+(* ---- elvish / PowerShell / zsh: the remaining classes from the tree the user wrote (round 3) ---- *)
+(** [Complete/TableUser.v].  elvish and PowerShell: the lookup statement ([C16_<sh>_lookup]: the block keyed by a path is in the
+    script, every block with that key carries the node's entries, a first-match lookup returns it) for [generate_<sh>] on a user
+    tree with distinct sibling names and aliases, no [;] in a name or in the bin name, no subcommand called [help] where clap
+    generates one: [build] keeps the class ([C16_build_siblings_ok]; [cmd_plain no_semi] by [BuildTexts.cp_build]) *)
+From ClapModel Require Complete.TableUser.
+Theorem C16_elvish_generate_lookup : forall c t bin,
+  bin <> [] -> siblings_ok c -> BuildSkeleton.help_free false c = true ->
+  PathTableLex.cmd_plain PathTableBlocks.no_semi c = true -> PathTableLex.plainl PathTableBlocks.no_semi bin = true ->
+  exists b tb,
+    build (set_bin_name c bin) = Some b /\ TextTree.tbuild (set_bin_name c bin) t = Some tb /\
+    ElvishModel.generate_elvish c t bin =
+      Some (ElvishModel.render bin
+              (List.concat (map (PathTableBlocks.render_block ElvishProofs.el_fmt) (PathTableBlocks.blocks ElvishProofs.el_fmt b tb [])))) /\
+    forall ws ns n, reach b ws ns n ->
+      exists tn,
+        In (PathTable.path_key bin ws, PathTable.entries ElvishProofs.el_fmt n tn) (PathTableBlocks.blocks ElvishProofs.el_fmt b tb []) /\
+        (forall e, In (PathTable.path_key bin ws, e) (PathTableBlocks.blocks ElvishProofs.el_fmt b tb []) ->
+                   e = PathTable.entries ElvishProofs.el_fmt n tn) /\
+        PathTableBlocks.lookup_block (PathTableBlocks.blocks ElvishProofs.el_fmt b tb []) (PathTable.path_key bin ws) =
+          Some (PathTable.path_key bin ws, PathTable.entries ElvishProofs.el_fmt n tn).
+Proof. exact TableUser.elvish_generate_lookup. Qed.
+Print Assumptions C16_elvish_generate_lookup.
+
+Theorem C16_powershell_generate_lookup : forall up c t bin,
+  bin <> [] -> siblings_ok c -> BuildSkeleton.help_free false c = true ->
+  PathTableLex.cmd_plain PathTableBlocks.no_semi c = true -> PathTableLex.plainl PathTableBlocks.no_semi bin = true ->
+  exists b tb,
+    build (set_bin_name c bin) = Some b /\ TextTree.tbuild (set_bin_name c bin) t = Some tb /\
+    PowershellModel.generate_powershell up c t bin =
+      Some (PowershellModel.render bin
+              (List.concat (map (PathTableBlocks.render_block (PowershellProofs.ps_fmt up))
+                                (PathTableBlocks.blocks (PowershellProofs.ps_fmt up) b tb [])))) /\
+    forall ws ns n, reach b ws ns n ->
+      exists tn,
+        In (PathTable.path_key bin ws, PathTable.entries (PowershellProofs.ps_fmt up) n tn)
+           (PathTableBlocks.blocks (PowershellProofs.ps_fmt up) b tb []) /\
+        (forall e, In (PathTable.path_key bin ws, e) (PathTableBlocks.blocks (PowershellProofs.ps_fmt up) b tb []) ->
+                   e = PathTable.entries (PowershellProofs.ps_fmt up) n tn) /\
+        PathTableBlocks.lookup_block (PathTableBlocks.blocks (PowershellProofs.ps_fmt up) b tb []) (PathTable.path_key bin ws) =
+          Some (PathTable.path_key bin ws, PathTable.entries (PowershellProofs.ps_fmt up) n tn).
+Proof. exact TableUser.powershell_generate_lookup. Qed.
+Print Assumptions C16_powershell_generate_lookup.
+
+Theorem C16_table_generate_lookup_nonvacuous :
+  [112%N] <> @nil N /\ siblings_ok TableUser.tu_root /\ BuildSkeleton.help_free false TableUser.tu_root = true /\
+  PathTableLex.cmd_plain PathTableBlocks.no_semi TableUser.tu_root = true /\
+  PathTableLex.plainl PathTableBlocks.no_semi [112%N] = true /\ c_subs TableUser.tu_root <> [].
+Proof. exact TableUser.table_user_hyps. Qed.
+Print Assumptions C16_table_generate_lookup_nonvacuous.
+
+(** [Complete/ZshBuildTame.v].  zsh: [build] keeps a tree in the class [ztame_cmd] of the whole-script structure theorems
+    ([C17_zsh_script_*]), so the C17 statement holds for the file [generate_zsh] writes for the user's tree: any two
+    assignments of description texts with the same presence shape give files with the same token skeleton and final state *)
+From ClapModel Require Complete.ZshLexProofs Complete.ZshBuildTame Complete.FishLexProofs Escape.ShellLex.
+Theorem C16_zsh_build_keeps_tame : forall c bin b,
+  build (set_bin_name c bin) = Some b -> ZshLexProofs.ztame_cmd c = true -> FishLexProofs.tame bin = true ->
+  ZshLexProofs.ztame_cmd b = true.
+Proof. exact ZshBuildTame.build_ztame. Qed.
+Print Assumptions C16_zsh_build_keeps_tame.
+
+Theorem C16_zsh_generate_same_skeleton : forall bl c d1 d2 bin s1,
+  ZshLexProofs.ztame_cmd c = true -> FishLexProofs.tame bin = true ->
+  FishLexProofs.erase_desc d1 = FishLexProofs.erase_desc d2 -> generate_zsh bl c d1 bin = Some s1 ->
+  exists s2, generate_zsh bl c d2 bin = Some s2 /\
+    ShellLex.skeleton (ShellLex.events ShellLex.sh_step ShellLex.ZB s1) =
+    ShellLex.skeleton (ShellLex.events ShellLex.sh_step ShellLex.ZB s2) /\
+    ShellLex.final ShellLex.sh_step ShellLex.ZB s1 = ShellLex.final ShellLex.sh_step ShellLex.ZB s2.
+Proof. exact ZshBuildTame.generate_zsh_text_invariance. Qed.
+Print Assumptions C16_zsh_generate_same_skeleton.
+
+Theorem C16_zsh_generate_same_skeleton_nonvacuous :
+  ZshLexProofs.ztame_cmd zx_user = true /\ FishLexProofs.tame [112%N] = true.
+Proof. exact ZshBuildTame.generate_zsh_tame_example. Qed.
+Print Assumptions C16_zsh_generate_same_skeleton_nonvacuous.
+
+(* ---- all six generators, one statement, on the tree the user wrote (round 3) ---- *)
+(** [Complete/CrossShell.v].  A user tree [c] without explicit bin names on subcommands, [generate] called with [bin], the built
+    tree in the class of the bash theorems ([mangle_safe], which contains what the zsh lookup needs).  For EVERY path [ws] of names
+    or visible aliases of the USER's tree to a command [n], every option or flag [a] the user gave [n], and EVERY spelling of [a]
+    ([spelled_short]: its short or a visible short alias; [spelled_long]: its long or a visible alias) in the class
+    [arg_has_primary a] (an alias comes with its primary spelling; outside it: finding alias-without-primary): each of the six
+    scripts exists and mentions THAT spelling where its shell looks it up for THAT path -- the same set in all six:
+    bash: the [case] arm the word loop ends in has [-s] / [--l] in its [opts];  zsh: the [_arguments] block after the arm label of
+    the last word (root: the first block) has the spec line (option form if the argument takes a value, flag form otherwise);
+    fish (paths of at most two words): a [complete] line starting with the path's condition has [ -s s] / [ -l l];
+    PowerShell / elvish: the block keyed [bin;w1;..;wk] has the entry;  nushell: the block declared
+    [export extern "bin n1 .. nk"] has a line of the argument starting with the spelling.
+    Corollary of the six coverage theorems, [C16_user_paths_are_built_paths] and [C16_build_linked]. *)
+From ClapModel Require Complete.CrossShell.
+Theorem C16_six_generators_mention_the_same_spellings : forall up bl c t d bin b ws ns n a,
+  BuildLinked.nb c = true -> build (set_bin_name c bin) = Some b -> mangle_safe b bin ->
+  reach c ws ns n -> In a (c_args n) -> a_is_positional a = false -> CrossShell.arg_has_primary a ->
+  (forall s, CrossShell.spelled_short a s ->
+     CrossShell.bash_mentions c bin ns ([45] ++ s) /\
+     CrossShell.zsh_mentions bl c d bin ws a (CrossShell.zsh_short_line bl a s) /\
+     ((List.length ws <= 2)%nat -> CrossShell.fish_mentions_word c d bin ws (short_word s)) /\
+     CrossShell.powershell_mentions up c t bin ws (PowershellProofs.ps_short up s) /\
+     CrossShell.elvish_mentions c t bin ws (ElvishProofs.el_short s) /\
+     CrossShell.nushell_mentions c d bin ns a (NushellProofs.mentions_short s)) /\
+  (forall l, CrossShell.spelled_long a l ->
+     CrossShell.bash_mentions c bin ns ([45; 45] ++ l) /\
+     CrossShell.zsh_mentions bl c d bin ws a (CrossShell.zsh_long_line bl a l) /\
+     ((List.length ws <= 2)%nat -> CrossShell.fish_mentions_word c d bin ws (long_word l)) /\
+     CrossShell.powershell_mentions up c t bin ws (PowershellProofs.ps_long l) /\
+     CrossShell.elvish_mentions c t bin ws (ElvishProofs.el_long l) /\
+     CrossShell.nushell_mentions c d bin ns a (NushellProofs.mentions_long l)).
+Proof. exact CrossShell.six_generators_mention_spellings_conj. Qed.
+Print Assumptions C16_six_generators_mention_the_same_spellings.
+
+(** what the six predicates say (their definitions, as equivalences, so that the statement above can be read from this file) *)
+Theorem C16_six_mentions_meaning : forall up bl c t d bin ws ns a w word entry ok line,
+  (CrossShell.bash_mentions c bin ns w <->
+     exists b tb k, build (set_bin_name c bin) = Some b /\ bash_table b = Some tb /\ generate_bash c bin = Some (render tb) /\
+                    lookup_case tb (fn_of (mangle bin) ns) = Some k /\ In w (k_opts k)) /\
+  (CrossShell.zsh_mentions bl c d bin ws a line <->
+     exists s n' nd g ad, generate_zsh bl c d bin = Some s /\
+       sublist (zrender ((if is_nil ws then [] else [Zx ([40] ++ last ws [] ++ [41])] ++ znl) ++ args_block bl n' nd g)) s /\
+       sublist (line n' g (a, ad)) (args_block bl n' nd g)) /\
+  (CrossShell.fish_mentions_word c d bin ws word <->
+     exists b n' lines basic fline,
+       build (set_bin_name c bin) = Some b /\ generate_fish c d bin = fish_script b (dbuild (set_bin_name c bin) d) /\
+       fish_lines b (dbuild (set_bin_name c bin) d) = Some lines /\
+       basic_template bin (fish_needs bin b) (fish_using bin b) ws n' = Some basic /\
+       In fline lines /\ hd_error fline = Some (Fx basic) /\ In word fline) /\
+  (CrossShell.powershell_mentions up c t bin ws entry <->
+     exists script es tip, PowershellModel.generate_powershell up c t bin = Some script /\
+       PathTable.infix (PowershellModel.case_block (PathTable.path_key bin ws) es) script /\ PathTable.infix (entry tip) es) /\
+  (CrossShell.elvish_mentions c t bin ws entry <->
+     exists script es tip, ElvishModel.generate_elvish c t bin = Some script /\
+       PathTable.infix (ElvishModel.case_block (PathTable.path_key bin ws) es) script /\ PathTable.infix (entry tip) es) /\
+  (CrossShell.nushell_mentions c d bin ns a ok <->
+     exists s blk pre post st,
+       NushellModel.generate_nushell c d bin = Some s /\ s = NushellProofs.nrender (pre ++ blk ++ post) /\
+       In (NushellProofs.NFx (NushellProofs.extern_line (negb (is_nil ns)) (bin ++ join_with [32%N] ns))) blk /\
+       ok st /\ In (NushellProofs.NFx (st ++ NushellProofs.type_suffix a (bin ++ join_with [32%N] ns))) blk).
+Proof. exact CrossShell.six_mentions_meaning. Qed.
+Print Assumptions C16_six_mentions_meaning.
+
+(** for subcommand names without a hyphen every hypothesis is on the tree the user wrote *)
+Theorem C16_six_generators_mention_the_same_spellings_plain : forall up bl c t d bin ws ns n a,
+  BuildLinked.nb c = true -> dd_safe bin = true -> bin <> [] -> siblings_ok c -> BuildSkeleton.help_free false c = true ->
+  (forall m, desc c m -> BashUser.bash_name (c_name m) = true) ->
+  reach c ws ns n -> In a (c_args n) -> a_is_positional a = false -> CrossShell.arg_has_primary a ->
+  (forall s, CrossShell.spelled_short a s ->
+     CrossShell.bash_mentions c bin ns ([45] ++ s) /\
+     CrossShell.zsh_mentions bl c d bin ws a (CrossShell.zsh_short_line bl a s) /\
+     ((List.length ws <= 2)%nat -> CrossShell.fish_mentions_word c d bin ws (short_word s)) /\
+     CrossShell.powershell_mentions up c t bin ws (PowershellProofs.ps_short up s) /\
+     CrossShell.elvish_mentions c t bin ws (ElvishProofs.el_short s) /\
+     CrossShell.nushell_mentions c d bin ns a (NushellProofs.mentions_short s)) /\
+  (forall l, CrossShell.spelled_long a l ->
+     CrossShell.bash_mentions c bin ns ([45; 45] ++ l) /\
+     CrossShell.zsh_mentions bl c d bin ws a (CrossShell.zsh_long_line bl a l) /\
+     ((List.length ws <= 2)%nat -> CrossShell.fish_mentions_word c d bin ws (long_word l)) /\
+     CrossShell.powershell_mentions up c t bin ws (PowershellProofs.ps_long l) /\
+     CrossShell.elvish_mentions c t bin ws (ElvishProofs.el_long l) /\
+     CrossShell.nushell_mentions c d bin ns a (NushellProofs.mentions_long l)).
+Proof. exact CrossShell.six_generators_mention_spellings_plain_conj. Qed.
+Print Assumptions C16_six_generators_mention_the_same_spellings_plain.
+
+Theorem C16_six_generators_nonvacuous :
+  exists a, reach BashUser.bu_root [[97]] [[97; 100; 100]] BashUser.bu_add /\ In a (c_args BashUser.bu_add) /\
+    a_is_positional a = false /\ CrossShell.arg_has_primary a /\ CrossShell.spelled_short a [99] /\
+    CrossShell.spelled_long a [99; 111; 108; 111; 114].
+Proof. exact CrossShell.six_generators_hyps. Qed.
+Print Assumptions C16_six_generators_nonvacuous.
+
+(** determinism of all six as one statement: functions of (command, texts, bin name); on the implementation: three generations *)
+Theorem C16_six_generators_deterministic : forall up bl c1 c2 t1 t2 d1 d2 b1 b2,
+  c1 = c2 -> t1 = t2 -> d1 = d2 -> b1 = b2 ->
+  generate_bash c1 b1 = generate_bash c2 b2 /\
+  generate_zsh bl c1 d1 b1 = generate_zsh bl c2 d2 b2 /\
+  generate_fish c1 d1 b1 = generate_fish c2 d2 b2 /\
+  PowershellModel.generate_powershell up c1 t1 b1 = PowershellModel.generate_powershell up c2 t2 b2 /\
+  ElvishModel.generate_elvish c1 t1 b1 = ElvishModel.generate_elvish c2 t2 b2 /\
+  NushellModel.generate_nushell c1 d1 b1 = NushellModel.generate_nushell c2 d2 b2.
+Proof. exact CrossShell.six_generators_deterministic. Qed.
+Print Assumptions C16_six_generators_deterministic.
